@@ -293,4 +293,5 @@ class StringLiteral(BaseType):
     def _repr_literals(self):
         if self._overflow:
             return '...'
-        return ','.join(self._literals)
+        # str() of a type is a sort key (ComplexType.sorted): it should not depend on the iteration order of a set
+        return ','.join(sorted(self._literals))
